@@ -26,7 +26,7 @@ def _bytes(s):
 
 def extract(ctx):
     f = {}
-    gov = vlib.read(os.path.join(vlib.REPO, GOV))
+    gov = vlib.read_contract(GOV)
     m = re.search(r"event\s+WormholeMessage\s*\(([^)]*)\)", gov)
     if not m:
         ctx.gen_fail("C11", "event WormholeMessage(...) not found in " + GOV); return None
@@ -47,7 +47,7 @@ def extract(ctx):
     params = dict(re.findall(r"(\w+)\s*:\s*(\w+)", m.group(1))) if m else {}
     f["emitTyped"] = bool(m) and all(params.get(n) == t for n, t in ev[1:])
 
-    tb = vlib.read(os.path.join(vlib.REPO, TB))
+    tb = vlib.read_contract(TB)
     m = re.search(r"pub fn attestToken\s*\((.*?)\)\s*->\s*\(\)\s*\{(.*?)\n    \}", tb, re.S)
     if not m:
         ctx.gen_fail("C11", "attestToken not found in " + TB); return None
@@ -56,7 +56,7 @@ def extract(ctx):
     if not mp:
         ctx.gen_fail("C11", "`let payload = ...` not found in attestToken"); return None
     comps = [c.strip() for c in mp.group(1).replace("\n", " ").split("++")]
-    tbc = vlib.read(os.path.join(vlib.REPO, TBC))
+    tbc = vlib.read_contract(TBC)
     enc = []
     for c in comps:
         mm = re.match(r"u256To(\d+)Byte!\((\w+)\)$", c)
@@ -84,7 +84,7 @@ def extract(ctx):
     f["clLowerBoundOnly"] = bool(mt) and bool(re.search(r"assert!\(consistencyLevel\s*>=\s*minimalConsistencyLevel", mt.group(2))) and \
         not re.search(r"consistencyLevel\s*<=?\s*\d", mt.group(2))
 
-    ath = vlib.read(os.path.join(vlib.REPO, ATH))
+    ath = vlib.read_contract(ATH)
     m = re.search(r"fn parseAttestToken\(.*?\n  \}", ath, re.S)
     if not m:
         ctx.gen_fail("C11", "parseAttestToken not found in " + ATH); return None
@@ -154,7 +154,7 @@ def classify(clause, case, verdict):
 
 def run(ctx):
     gen(ctx)
-    ctx.prove(families=("alphutil",))
+    ctx.prove(families=("alphutil", "alphwatch"))
     ov = ctx.overlay(OVERLAY, p2p_stub=True)
     if ov is None:
         return
@@ -207,3 +207,12 @@ def run(ctx):
         "toMessagePublication is called with a non-nil header (its callers dereference the header before)",
     ]
     os.remove(src)
+    # the watcher's two delivery paths hand over exactly the message the event converts to: the real handleEvents /
+    # handleObsvRequest against the fake node (family alphwatch); C11 reports clause reobs-forwarded-altered and any
+    # model/implementation difference in what was forwarded, everything else there belongs to C08 / C09
+    from checks import alphwatchcommon
+    keep = {k: ctx.cov.get(k) for k in ("rule", "generator_distribution")}
+    work = ctx.work
+    alphwatchcommon.run_alphwatch(ctx, "c08")
+    ctx.cov["rule"] = keep["rule"] + " | delivery paths: the C08 generators (poll / pipe / reobs) - forwarded messages compared field by field with the model"
+    ctx.cov["generator_distribution"] = {"alphutil": keep["generator_distribution"], "alphwatch": ctx.cov.get("generator_distribution")}
